@@ -189,7 +189,14 @@ def byte_values(orig, tier, r):
     return sorted(vals)[:QUICK_VALUES]
 
 
-def cases(name, buf, tier, seed):
+def cases(name, buf, tier, seed, part=None):
+    """part 's': the structured families, 'b': the single-byte mutations, None: both."""
+    for cid, data, expect in _cases(name, buf, tier, seed):
+        if part is None or (part == "b") == (cid.split("/")[1] in ("byte", "bytefix")):
+            yield cid, data, expect
+
+
+def _cases(name, buf, tier, seed):
     """Yield (case_id, bytes, expect) - expect 'crc_false' when a checksum-covered byte of a
     structurally unchanged batch was altered."""
     n = len(buf)
@@ -198,18 +205,6 @@ def cases(name, buf, tier, seed):
     regions = crc_regions(buf)
     spans = recfmt.batch_spans(buf)
     r = scenario.rng_for(seed, "C10", name)
-    for p in range(n):
-        covered = any(s <= p < e for s, e in regions)
-        for v in byte_values(buf[p], tier, r):
-            m = bytearray(buf)
-            m[p] = v
-            yield f"{name}/byte/{p}/{v}", bytes(m), ("crc_false" if covered else None)
-            if covered and (tier == "thorough" or (p + v) % 3 == 0):
-                # the same flip with the checksum repaired: the parser behind the CRC check
-                # meets hostile input
-                for (s, e, magic) in spans:
-                    if magic >= 2 and s + 21 <= p < e:
-                        yield f"{name}/bytefix/{p}/{v}", fix_crc_v2(bytes(m), s), None
     # hostile fixed-width fields
     for (s, e, magic) in spans:
         if magic >= 2:
@@ -358,6 +353,24 @@ def cases(name, buf, tier, seed):
                         variants.append((f"len1={val}", bytes(mi)))
             variants += [("half", inner[: len(inner) // 2]), ("empty", b""), ("one", inner[:1]),
                          ("eleven", inner[:11])]
+            # every truncation point of the decompressed set (the end of a message must be
+            # checked against the *decompressed* buffer), as it is and with the inner messages
+            # claiming the other legacy magic than their wrapper (their layout differs by the
+            # 8-byte timestamp: a bounds check sized by the wrapper's magic is 8 bytes short)
+            step = 1 if tier != "quick" else 1
+            for cut in range(12, min(len(inner), 160), step):
+                variants.append((f"itrunc={cut}", inner[:cut]))
+            other = bytearray(inner)
+            pos = 0
+            while pos + 17 <= len(other):
+                (isz,) = struct.unpack_from(">i", other, pos + 8)
+                other[pos + 16] = 1 - (other[pos + 16] & 1)
+                if isz <= 0:
+                    break
+                pos += 12 + isz
+            variants.append(("imagic", bytes(other)))
+            for cut in range(12, min(len(other), 160)):
+                variants.append((f"imagic-trunc={cut}", bytes(other[:cut])))
             for vn, inn in variants:
                 payload = recfmt.compress(codec, inn)
                 m = bytearray(buf[:voff]) + struct.pack(">i", len(payload)) + payload
@@ -374,6 +387,20 @@ def cases(name, buf, tier, seed):
             struct.pack_into(">i", m, 8, ln - 12)
             m[16] = rr.choice([0, 1, 2, 2, 2, 3])
             yield f"{name}/randframe/{k}", bytes(m), None
+    # single-byte mutations last: by far the largest family, so a run that is cut short by its
+    # wall-clock budget has been through all the structured families of every buffer it reached
+    for p in range(n):
+        covered = any(s <= p < e for s, e in regions)
+        for v in byte_values(buf[p], tier, r):
+            m = bytearray(buf)
+            m[p] = v
+            yield f"{name}/byte/{p}/{v}", bytes(m), ("crc_false" if covered else None)
+            if covered and (tier == "thorough" or (p + v) % 3 == 0):
+                # the same flip with the checksum repaired: the parser behind the CRC check
+                # meets hostile input
+                for (s, e, magic) in spans:
+                    if magic >= 2 and s + 21 <= p < e:
+                        yield f"{name}/bytefix/{p}/{v}", fix_crc_v2(bytes(m), s), None
 
 
 # ------------------------------------------------------------------------------------
@@ -478,7 +505,9 @@ def worker_main(argv):
     resume = cfg.get("resume_after")  # "<buffer name> <case id>": skip up to and including that chunk
     skipping = bool(resume)
     skip_left = 0
-    for name, buf in mine:
+    # two passes: the structured families of every buffer first, the (much larger) single-byte
+    # family afterwards, so that a wall-clock cut costs breadth of the cheap family only
+    for name, buf, part in [(n_, b_, "s") for n_, b_ in mine] + [(n_, b_, "b") for n_, b_ in mine]:
         if skipping and resume.split(" ", 1)[0] != name and skip_left == 0:
             continue
         # the unmodified buffer must decode (sanity of the corpus)
@@ -488,7 +517,7 @@ def worker_main(argv):
         except Exception as exc:  # noqa: BLE001
             if not name.startswith("v2+partial"):
                 stats["violations"].append({"clause": "valid_buffer_rejected", "case": name, "error": repr(exc)[:200]})
-        for cid, data, expect in cases(name, buf, tier, seed):
+        for cid, data, expect in cases(name, buf, tier, seed, part):
             if only and cid not in only:
                 continue
             if skipping:
